@@ -248,6 +248,16 @@ def replay_search():
                     continue
                 if not (abs(float(root) - a) <= tol * (1 + 1e-6) + 1e-12 * abs(a)):
                     bad.append(f"{nm} root={a} tol={tol}: returned {float(root)} (error {abs(float(root) - a):.3g})")
+    # narrow initial intervals very far from the root: the adaptation loop needs log2(distance / width) doublings (no fixed cap is sound)
+    for lo_, up_, a in ((0.0, 1.0, 1e6), (0.0, 1.0, -3e7), (2.0, 2.001, 5e4), (-1e-3, 0.0, -2e5), (0.0, 1e-6, 40.0)):
+        for nm in ("steep", "flat"):
+            try:
+                root, ad, it = _bisection_search(fns[nm](a), lower=jnp.array(lo_), upper=jnp.array(up_), tol=1e-4, max_iter=200)
+            except Exception as e:  # noqa
+                bad.append(f"{nm} root={a} on [{lo_}, {up_}]: raised {type(e).__name__}")
+                continue
+            if not (abs(float(root) - a) <= 1e-4 * (1 + 1e-6) + 1e-12 * abs(a)):
+                bad.append(f"{nm} root={a} initial interval [{lo_}, {up_}] tol=1e-4: returned {float(root)} (error {abs(float(root) - a):.3g})")
     bad += _replay_float32()
     return bool(bad), "; ".join(bad[:4]) or "no discrepancy on the replay family"
 
